@@ -7,7 +7,7 @@ TRACE = "TracePyRegex"
 ASSUMPTIONS = [
     "CPython's re module is the authoritative oracle; the TLA+ denotation (PyRegexSem!Den) is the generator and a second oracle, "
     "a disagreement between the two is reported as machinery failure",
-    "patterns are rendered by TLC from ASTs of bounded depth; test strings are all strings up to length 3 over {a,b,c,0,-,space,]}",
+    "patterns are rendered by TLC from ASTs of bounded depth; test strings are all strings up to length 3 over {a,b,c,0,-,space,],$,[} (quick: all up to length 2 and every third of length 3)",
 ]
 SIGMA = ["a", "b", "c", "0", "-", " ", "]", "$", "["]
 
@@ -57,14 +57,18 @@ def generate(tier, seed, work, stats):
         cases.append(dict(pat=st["pat"], den=sorted(st["lang"]), ast=tlaparse.to_json(st["ast"]), family="PyRegexGen"))
     for c in list(cases)[:: 4 if tier == "quick" else 2]:
         cases.append(dict(pat=mutate_text(c["pat"], rnd), den=[], ast=c["ast"], family="mutated"))
+    for c in cases:
+        c["tier"] = tier
     return cases
 
 
-def strings():
+def strings(tier="thorough"):
     import itertools
     out = []
     for n in range(4):
         out.extend("".join(t) for t in itertools.product(SIGMA, repeat=n))
+    if tier == "quick":        # all strings up to length 2, every third string of length 3
+        out = [s for i, s in enumerate(out) if len(s) < 3 or i % 3 == 0]
     return out
 
 
@@ -75,7 +79,10 @@ def replay(case):
     from pyformlang.regular_expression import PythonRegex
     pat = case["pat"]
     ev = {"op": "pyregex", "pat": pat, "den": case["den"], "re": [], "acc": [], "family": case["family"]}
-    ss = strings()
+    if case.get("tier") == "quick":
+        keep = set(strings("quick"))
+        ev["den"] = [s for s in case["den"] if s in keep]
+    ss = strings(case.get("tier", "thorough"))
     with warnings.catch_warnings():
         warnings.simplefilter("ignore")
         try:
